@@ -884,9 +884,14 @@ class Tag:
 
         # Write attributes
         for key, val in self.attrs.items():
-            if not isinstance(val, HTML):
+            if isinstance(val, HTML):
+                val = val.as_string()
+            else:
                 val = html_escape(val, attr=True)
-            html_ += f' {key}="{val}"'
+            # Concatenate rather than format: a value whose type is a subclass of str
+            # (e.g. a `(str, Enum)` member) must contribute its characters, not whatever
+            # its __format__()/__str__() returns.
+            html_ += " " + key + '="' + val + '"'
 
         # Dependencies are ignored in the HTML output
         children = [x for x in self.children if not isinstance(x, MetadataNode)]
